@@ -359,7 +359,22 @@ pub fn run_pair(tag: &str, case: &PairCase, prefix: Vec<u32>, profile: ChoicePro
                             } else if st.status() != Some(200) {
                                 flag(format!("response:status-{}", st.status().unwrap_or(0)), format!("transfer {i}: status {:?}", st.status()));
                             } else if st.body != want {
-                                flag(format!("response:{}", super::c01::classify_pub(&st.body, &want)), format!("transfer {i}: client got {} body bytes, backend sent {}", st.body.len(), x.down));
+                                let at = st.body.iter().zip(want.iter()).position(|(a, b)| a != b).unwrap_or(st.body.len().min(want.len()));
+                                if std::env::var("H2_DUMP").is_ok() && at + 64 <= st.body.len() {
+                                    eprintln!("---- bytes at the difference: got {:02x?} want {:02x?}", &st.body[at..at + 16], &want[at..at + 16]);
+                                    for (j, xx) in case.xfers.iter().enumerate() {
+                                        let u = upload(j, xx.up);
+                                        if let Some(o) = u.windows(10).position(|w| w == &st.body[at..at + 10]) {
+                                            eprintln!("---- the 10 bytes received at offset {at} are bytes {o}.. of the UPLOAD of transfer {j}");
+                                        }
+                                    }
+                                    let probe = &st.body[at..at + 64];
+                                    let found = want.windows(64).position(|w| w == probe);
+                                    eprintln!("---- the 64 bytes received at offset {at} are the backend's bytes at offset {found:?}");
+                                    let resync = (at..st.body.len().saturating_sub(64)).find(|&o| st.body[o..o + 64] == want[o..o + 64]);
+                                    eprintln!("---- the streams agree again from offset {resync:?}");
+                                }
+                                flag(format!("response:{}", super::c01::classify_pub(&st.body, &want)), format!("transfer {i}: client got {} body bytes, backend sent {}; first difference at byte {at} (DATA frame sizes so far: {:?})", st.body.len(), x.down, st.data_frames.iter().take(12).collect::<Vec<_>>()));
                             }
                         }
                     }
